@@ -678,5 +678,5 @@ func init() {
 		allowProbes: true, facadeHeavy: true}), Exec: execC19}
 	suites["C17"] = Suite{Gen: genRT(rtProfile{malformedPct: 25, removePct: 10, badMethodPct: 45, dumpEvery: true, probeEvery: true,
 		allowProbes: true, repeatObs: true, maxRoutes: 9, literalFanout: true, syntaxOps: true, twinPct: 12}), Exec: execRT}
-	suites["C18"] = Suite{Gen: genRT(rtProfile{removePct: 20, tracePct: 70, allowProbes: true, use: true, maxRoutes: 8, rawPaths: true}), Exec: execRT}
+	// C18: see gen2.go (the same profile followed by Trace helper requests)
 }
